@@ -44,6 +44,7 @@ type Contract struct {
 	File     string
 	Line     int
 	NoInline bool
+	Unverified string // non-empty: the body is not verified against the contract (assumed); reason
 	GhostInc []string // ghost counters incremented by one on entry (ghost code of the function)
 	GhostSet map[string]int64 // ghost variables set on entry
 	Implements []string       // interface-method contracts whose clauses this function inherits
@@ -197,7 +198,7 @@ func (e *Engine) loadContractFile(path, pkgShort string) error {
 		lines = append(lines, logical{t, i + 1})
 	}
 	isStart := func(s string) bool {
-		for _, k := range []string{"func ", "trusted func ", "interface ", "spec ", "ghostvar ", "requires", "ensures", "modifies", "loop ", "ghost ", "also", "pure", "noinline", "inline", "ghostinc ", "ghostset ", "implements ", "witness ", "lemma ", "assert", "at "} {
+		for _, k := range []string{"func ", "trusted func ", "interface ", "spec ", "ghostvar ", "requires", "ensures", "modifies", "loop ", "ghost ", "also", "pure", "noinline", "inline", "ghostinc ", "ghostset ", "implements ", "unverified", "witness ", "lemma ", "assert", "at "} {
 			if strings.HasPrefix(s, k) {
 				return true
 			}
@@ -285,6 +286,11 @@ func (e *Engine) loadContractFile(path, pkgShort string) error {
 			cur.Cases = append(cur.Cases, curCase)
 		case t == "pure":
 			cur.Pure = true
+		case strings.HasPrefix(t, "unverified"):
+			cur.Unverified = strings.TrimSpace(strings.TrimPrefix(t, "unverified"))
+			if cur.Unverified == "" {
+				cur.Unverified = "body not verified against this contract"
+			}
 		case strings.HasPrefix(t, "implements "):
 			cur.Implements = append(cur.Implements, strings.TrimSpace(t[len("implements "):]))
 		case strings.HasPrefix(t, "ghostset "):
@@ -441,6 +447,11 @@ func (e *Engine) resolveImplements() error {
 				c.Cases[0].Ensures = append(c.Cases[0].Ensures, &cp)
 			}
 			c.Modifies = append(c.Modifies, ic.Modifies...)
+			// ghost counters the interface contract increments at call sites may change inside an
+			// implementation through nested calls of the same interface
+			for _, g := range ic.GhostInc {
+				c.Modifies = append(c.Modifies, &EField{&EIdent{"ghost"}, g})
+			}
 		}
 	}
 	return nil
